@@ -1,0 +1,43 @@
+//go:build verif
+
+// Package raftsim re-exports what the verification harness (/verif) needs from
+// internal packages. Compiled only with -tags verif.
+package raftsim
+
+import (
+	"github.com/lni/dragonboat/v4/config"
+	"github.com/lni/dragonboat/v4/internal/logdb"
+	"github.com/lni/dragonboat/v4/internal/raft"
+	"github.com/lni/dragonboat/v4/raftio"
+	pb "github.com/lni/dragonboat/v4/raftpb"
+)
+
+type (
+	Peer        = raft.Peer
+	PeerAddress = raft.PeerAddress
+	VState      = raft.VState
+	VRemote     = raft.VRemote
+	VRead       = raft.VRead
+	LogReader   = logdb.LogReader
+)
+
+var (
+	Inspect              = raft.VInspect
+	SetRandomizedTimeout = raft.VSetRandomizedTimeout
+	RawHandle            = raft.VRawHandle
+	IsLocalMessageType   = raft.IsLocalMessageType
+	ErrCompacted         = raft.ErrCompacted
+	ErrSnapshotOutOfDate = raft.ErrSnapshotOutOfDate
+)
+
+// NewLogReader creates the real LogReader over db.
+func NewLogReader(shardID, replicaID uint64, db raftio.ILogDB) *LogReader {
+	return logdb.NewLogReader(shardID, replicaID, db)
+}
+
+// Launch starts a raft peer over lr.
+func Launch(c config.Config, lr *LogReader, addresses []PeerAddress, initial, newNode bool) Peer {
+	return raft.Launch(c, lr, nil, addresses, initial, newNode)
+}
+
+var _ = pb.Entry{}
